@@ -23,6 +23,10 @@ CHECKS = {}  # filled from sim/props/*.py that exist and are listed in ENABLED
 ENABLED = json.load(open(os.path.join(HERE, "bin", "enabled.json")))
 
 TEXT = {
+    "C18": ("exploration",
+            "Seeded exploration over abstract Cargo workspaces (1-4 members, virtual/rooted, seven target kinds, package and per-target editions, path dependencies inside/outside incl. transitive, shared source file, excluded member) x selections x working directories x pass-through options, with the real cargo-fmt, the real `cargo metadata` and a recording stub as $RUSTFMT whose per-invocation exit status / fatal signal is scripted, plus spawn failures (ENOENT, injected EACCES) and a failing cargo. Oracles over the recorded argument vectors and exit status against an independent full `cargo metadata` ground truth; an end-to-end lane runs the real rustfmt.",
+            "Trusts cargo's own metadata as ground truth for targets/editions; accepts both readings of 'current package' at a multi-package workspace root.",
+            "deterministic simulation: recording child stub + scripted child faults + spawn fault injection around the real cargo-fmt", "s4 C18"),
     "C13": ("exploration",
             "Seeded exploration with the generator as reference model: abstract module trees (name.rs / name/mod.rs / #[path] / inline nesting / cfg_attr(path) / cfg_if! / cfg_match! / stem-directory heuristic with nested or fallback children), decoys, skip / ignore (incl. negations, non-leaf targets) / @generated markers, skip_children, stdin, a file reached twice, three root spellings; the real binary's recorded writes are compared with the model's sets E (must be formatted), X (untouched), D (don't care); fault lane: missing / ambiguous / unreadable module must be an error with no write; 3 hash seeds.",
             "Trusts the module-resolution rules written in the generator (rustc's) and the 30-line gitignore matcher for the generated pattern vocabulary; gray zones of the property's wording go to the don't-care set or are not generated.",
